@@ -510,13 +510,17 @@ compact_tuple_sketch<S, A> compact_tuple_sketch<S, A>::deserialize(std::istream&
       }
     }
   }
+  if (!is.good()) throw std::runtime_error("error reading from std::istream");
   A alloc(allocator);
   std::vector<Entry, AllocEntry> entries(alloc);
   if (!is_empty) {
-    entries.reserve(num_entries);
+    // the count is not trusted beyond this, the vector grows as entries arrive
+    const uint32_t max_reserve = 1 << 16;
+    entries.reserve(std::min(num_entries, max_reserve));
     std::unique_ptr<S, deleter_of_summaries> summary(alloc.allocate(1), deleter_of_summaries(1, false, allocator));
     for (size_t i = 0; i < num_entries; ++i) {
       const auto key = read<uint64_t>(is);
+      if (!is.good()) throw std::runtime_error("error reading from std::istream");
       sd.deserialize(is, summary.get(), 1);
       entries.push_back(Entry(key, std::move(*summary)));
       (*summary).~S();
